@@ -62,6 +62,19 @@ def Params.kB (p : Params) : Key := ⟨p.peerA, p.id⟩     -- the server transa
 def Params.ReqFrame (p : Params) (a : Apdu) : Prop :=
   a.ty = 0 → a.invokeId = p.id → Genuine p.TP a ∧ ReqHdr p.mr p.ms p.sa p.svc a
 
+/-- … the same with a constraint on the segment index -/
+def Params.ReqFrameN (p : Params) (N : Nat → Prop) (a : Apdu) : Prop :=
+  a.ty = 0 → a.invokeId = p.id → GenuineN p.TP N a ∧ ReqHdr p.mr p.ms p.sa p.svc a
+
+theorem Params.ReqFrameN.plain {p : Params} {N : Nat → Prop} {a : Apdu} (h : p.ReqFrameN N a) :
+    p.ReqFrame a := fun h0 hi => ⟨(h h0 hi).1.genuine, (h h0 hi).2⟩
+
+/-- what a client transaction may be handed as a segment of the response:
+    while it receives, a segment less than 256 away from the expected one;
+    before, one of the first 256 -/
+def NearC (T : Xfer) (b : Body) (i : Nat) : Prop :=
+  (b.st = .segConf → NearIdx T b i) ∧ (b.st ≠ .segConf → i < 256)
+
 /-- what the geometry parameters have to be: the values the two sides compute -/
 structure Params.Geo (p : Params) (cfgA cfgB : Cfg) (devA devB : List (Peer × DeviceInfo)) : Prop where
   /-- A cuts the request for the maximum it assumes B accepts -/
@@ -79,9 +92,6 @@ structure Params.Geo (p : Params) (cfgA cfgB : Cfg) (devA devB : List (Peer × D
         (serverMaxApdu (lookupNpdu devB p.peerA) p.MB) 3 5
       = some (size, count) → size = p.sizeR ∧ count = p.countR
   wfR : p.TR.WF
-  /-- the property's hypothesis: at most 256 segments in each direction -/
-  leP : p.countP ≤ 256
-  leR : p.countR ≤ 256
 
 theorem Params.Geo.wfP {p : Params} {cfgA cfgB : Cfg} {devA devB : List (Peer × DeviceInfo)}
     (g : p.Geo cfgA cfgB devA devB) : p.TP.WF := by
@@ -101,7 +111,7 @@ def specA (p : Params) (cfg : Cfg) (dev : List (Peer × DeviceInfo)) : Local cfg
           (k = p.kA → c.data = p.P ∧ c.service = p.svc ∧ b.segSize = p.sizeP ∧ b.segCount = p.countP)) ∧
     (b.st = .segConf → ∃ c, b.ctx = some c ∧ c.invokeId = k.id ∧ (k = p.kA → RecvBuf p.TR b))
   SI _ _ := False
-  FC k _ a := k = p.kA → a.ty = 3 → Genuine p.TR a
+  FC k b a := k = p.kA → a.ty = 3 → GenuineN p.TR (NearC p.TR b) a
   FS _ _ _ := True
   FN _ _ := False
   RS _ _ _ := True
@@ -121,8 +131,8 @@ def specB (p : Params) (cfg : Cfg) (dev : List (Peer × DeviceInfo)) : Local cfg
     (b.st = .segReq → ∃ c, b.ctx = some c ∧ c.invokeId = k.id ∧ (k = p.kB → RecvBuf p.TP b)) ∧
     (k = p.kB → b.maxApdu = p.MB ∧ b.hasDI = (lookupDI dev p.peerA).isSome)
   FC _ _ _ := True
-  FS k _ a := k = p.kB → p.ReqFrame a
-  FN k a := k = p.kB → p.ReqFrame a
+  FS k b a := k = p.kB → p.ReqFrameN (NearIdx p.TP b) a
+  FN k a := k = p.kB → p.ReqFrameN (fun i => i < 256) a
   RS k _ a := k = p.kB → a.ty = 3 → a.data = p.R ∧ a.seg = false
   QN _ _ _ := False
   OO o :=
